@@ -82,7 +82,7 @@ func checkC10(c *core.Ctx) error {
 	trans += mres.Generated
 	for i, m := range ms {
 		if !c.Quick() || (i+int(c.Seed))%2 == 0 || len(m.Calls) >= 2 {
-			scs = append(scs, buildPkg(fmt.Sprintf("c10a-%05d", i), m, i%2, (i+int(c.Seed))%16))
+			scs = append(scs, buildPkg(fmt.Sprintf("c10a-%05d", i), m, i%2, (i+int(c.Seed))%32))
 		}
 	}
 	// (B) rename matrix: old/new name lengths x flags x every layout x file split
@@ -92,7 +92,7 @@ func checkC10(c *core.Ctx) error {
 			if first == second {
 				continue
 			}
-			for layout := 0; layout < 16; layout++ {
+			for layout := 0; layout < 32; layout++ {
 				for split := 1; split <= 2; split++ {
 					// -dedup: second name folded onto the first (same key)
 					m := mcScenario{Calls: []CallSpec{{"equal", first, "K1", 1}, {"equal", second, "K1", split}, {"equal", second, "K1", 2}}, Dedup: true}
@@ -115,7 +115,7 @@ func checkC10(c *core.Ctx) error {
 	}
 	// (C) failing runs: generator error and load error, under every flag combination
 	for fl := 0; fl < 4; fl++ {
-		for layout := 0; layout < 16; layout += 5 {
+		for layout := 0; layout < 32; layout += 5 {
 			base := mcScenario{Calls: []CallSpec{{"equal", "deriveEqual", "K1", 1}, {"equal", "deriveEqualA", "K1", 1}, {"equal", "deriveEqualA", "K2", 2}},
 				Autoname: fl&1 != 0, Dedup: fl&2 != 0}
 			g := buildPkg(fmt.Sprintf("c10c-gen-%d-%d", fl, layout), base, 0, layout)
